@@ -519,7 +519,7 @@ PROPS = {
             "monitor_kinds": ["STUCK", "SLOW"], "relevant": "RMWT"},
     "C02": {"seq": [("cas", 1024, 1000000, 15, 40), ("cas", 1024, None, 80, 50), ("mix", 1024, None, 30, 40), ("ttl", 1024, None, 30, 40),
                     ("counter", 1024, None, 30, 40)], "conc": [("base", 200), ("rmw", 100)], "pol": 100,
-            "monitor_kinds": ["STUCK", "NONLIN", "VANISH"], "known_classes": True, "known_from": "C04", "relevant": "RMWTP"},
+            "monitor_kinds": ["STUCK", "NONLIN", "VANISH", "GHOST"], "known_classes": True, "known_from": "C04", "relevant": "RMWTP"},
     "C03": {"seq": [("cas", 1024, None, 20, 30)], "conc": [("base", 500)], "pol": 150, "relevant": "RMTP"},
     "C04": {"seq": [("counter", 1024, None, 20, 30)], "conc": [("rmw", 500)], "pol": 40, "relevant": "RMTP",
             "known_classes": True},
@@ -534,12 +534,12 @@ PROPS = {
             "conc": [("ttl", 300)], "monitor_kinds": ["STUCK", "NONLIN"], "known_classes": True, "known_from": "C04",
             "relevant": "RMWT"},
     "C07": {"seq": [("counter", 1024, 1000000, 15, 40), ("counter", 1024, None, 100, 50), ("cas", 1024, None, 20, 40), ("ttl", 1024, None, 20, 40)],
-            "conc": [("ttl", 200)], "pol": 60, "monitor_kinds": ["STUCK", "NONLIN", "VANISH"], "known_classes": True, "known_from": "C04",
+            "conc": [("ttl", 200)], "pol": 60, "monitor_kinds": ["STUCK", "NONLIN", "VANISH", "GHOST"], "known_classes": True, "known_from": "C04",
             "relevant": "RMWTP"},
     "C08": {"seq": [("flush", 1024, 1000000, 15, 40), ("flush", 1024, None, 80, 50), ("ttl", 1024, None, 40, 50), ("cas", 1024, None, 30, 40),
                     ("wide", 1024, None, 30, 40)],
             "conn": [("flush", 1024, None, 30, 30), ("quiet", 1024, None, 15, 25)],
-            "conc": [("ttl", 300)], "pol": 60, "monitor_kinds": ["STUCK", "NONLIN", "VANISH"], "known_classes": True, "known_from": "C04",
+            "conc": [("ttl", 300)], "pol": 60, "monitor_kinds": ["STUCK", "NONLIN", "VANISH", "GHOST"], "known_classes": True, "known_from": "C04",
             "relevant": "RMWTP"},
     "C09": {"seq": [("cuts", 1024, None, 60, 30), ("malformed", 1024, None, 60, 30), ("malformed", 100, None, 40, 30),
                     ("cuts", 64, None, 30, 30)],
@@ -564,14 +564,14 @@ PROPS = {
                     ("policy", 1024, 1000, 30, 60), ("counter", 1024, 120, 20, 50), ("flush", 1024, 200, 20, 50),
                     ("crowd", 600, 1000, 8, 120), ("crowd", 1500, 2500, 4, 240)],
             "conn": [("policy", 1024, 300, 15, 30)], "pol": 150, "relevant": "UMRP",
-            "monitor_kinds": ["ACCT", "BOUND", "STUCK", "NONLIN", "VANISH"]},
+            "monitor_kinds": ["ACCT", "BOUND", "STUCK", "NONLIN", "VANISH", "GHOST"]},
     "C15": {"seq": [("policy", 1024, 100000, 40, 80), ("policy", 1024, 400, 40, 60), ("ttl", 1024, 500, 30, 60),
                     ("flush", 1024, 500, 30, 60), ("cas", 1024, 500, 30, 50), ("counter", 1024, 500, 20, 50),
                     ("crowd", 600, 1000, 8, 120), ("crowd", 1500, 2500, 4, 240)],
-            "pol": 150, "relevant": "UMRP", "monitor_kinds": ["ACCT", "BOUND", "STUCK", "NONLIN", "VANISH"]},
+            "pol": 150, "relevant": "UMRP", "monitor_kinds": ["ACCT", "BOUND", "STUCK", "NONLIN", "VANISH", "GHOST"]},
     "C17": {"seq": [("mix", 1024, None, 10, 20)], "limit": 8, "mlimit": 6, "cfg": 6, "relevant": "VS", "no_minimize": True},
     "C20": {"seq": [("mix", 1024, 1000000, 30, 40), ("mix", 1024, None, 10, 30)], "cfg": 8, "mlimit": 4, "pol": 60,
-            "monitor_kinds": ["ACCT", "BOUND", "STUCK", "NONLIN", "VANISH"], "relevant": "RSCTPUM"},
+            "monitor_kinds": ["ACCT", "BOUND", "STUCK", "NONLIN", "VANISH", "GHOST"], "relevant": "RSCTPUM"},
     "C18": {"seq": [("cuts", 1024, None, 60, 30), ("malformed", 1024, None, 40, 30)],
             "conn": [("cuts", 1024, None, 30, 25), ("malformed", 1024, None, 30, 25), ("mix", 1024, None, 20, 25),
                      ("idle", 1024, None, 3, 14)],
